@@ -40,6 +40,17 @@ type scenario struct {
 	ops    []op
 }
 
+// at most two witnesses per class, so that a frequent class cannot crowd out a new one
+var classCount = map[string]int{}
+
+func failOnce(rep *emit.Report, class, what string, in interface{}) {
+	if classCount[class] >= 2 {
+		return
+	}
+	classCount[class]++
+	rep.Fail(class, what, in)
+}
+
 func quiet() log.Logger { return log.New(nil, log.PanicLevel, false) }
 
 // sigLen is the length of a partial signature of the scheme (2 bytes of index + one point).
@@ -117,7 +128,7 @@ func runScenario(rep *emit.Report, sch *crypto.Scheme, sc scenario) (string, str
 		for k, v := range extra {
 			in[k] = v
 		}
-		rep.Fail(class, what, in)
+		failOnce(rep, class, what, in)
 	}
 	for n, o := range sc.ops {
 		var ob obs
@@ -408,12 +419,12 @@ func replayFlood(rep *emit.Report, w *blsWorld, chained bool, n int, cases, desc
 	has := c.Has(round, prevHonest, vidx)
 	rep.Count(fmt.Sprintf("replay/%s/accepted=%d/%d", w.sch.Name, accepted, n))
 	if had && !has {
-		rep.Fail("C12-unchained-prev-flood-evicts-victim",
+		failOnce(rep, "C12-unchained-prev-flood-evicts-victim",
 			fmt.Sprintf("scheme %s: the victim's valid partial for round %d, replayed by another party under %d junk previous signatures, was accepted %d times (previous signature is not signed) and evicted the victim's genuine cache entry", w.sch.Name, round, n, accepted),
 			map[string]interface{}{"scheme": w.sch.Name, "round": round, "replays": n, "accepted": accepted, "victim_index": vidx, "victim_entry_before": had, "victim_entry_after": has})
 	}
 	if chained && accepted != 0 {
-		rep.Fail("C12-chained-replay-accepted", "a replayed partial verified under a different previous signature on the chained scheme", map[string]interface{}{"accepted": accepted})
+		failOnce(rep, "C12-chained-replay-accepted", "a replayed partial verified under a different previous signature on the chained scheme", map[string]interface{}{"accepted": accepted})
 	}
 	fr, fk := dump(c)
 	*cases = append(*cases, fmt.Sprintf("PCase %s %s %s %s", emit.Bool(chained), emit.List(evs), fr, fk))
@@ -445,6 +456,7 @@ func validityCases(rep *emit.Report, w *blsWorld, chained bool, cases, descr *[]
 // Run is the engine entry point.
 func Run(outDir string, seed int64, tier string) error {
 	rep := emit.NewReport("cache", seed, tier)
+	classCount = map[string]int{}
 	rng := rand.New(rand.NewSource(seed))
 	sch := crypto.NewPedersenBLSChained()
 	var scs []scenario
